@@ -71,7 +71,7 @@ def serve_rsync(channel: Channel) -> None:
                         with open(path, "rb") as fp:
                             checksum = md5(fp.read()).digest()
                     elif msg_mode and msg_mode != st.st_mode:
-                        os.chmod(path, msg_mode | 0o700)
+                        os.chmod(path, msg_mode)
                         return
                     else:
                         return  # already fine
